@@ -32,6 +32,7 @@ struct TCase {
   int64_t p1 = 0, p2 = 0, p3 = 0;  // law parameters
   uint64_t seed = 0;               // initial destination content
   int prefill = 0;
+  int fence = 0;  // 0 malloc, 1 end of storage against a PROT_NONE page, 2 start against one
   template <class A> void io(A &a) {
     a.f("fmt", fmt);
     a.f("w", w);
@@ -46,6 +47,7 @@ struct TCase {
     a.f("p3", p3);
     a.f("seed", seed);
     a.f("prefill", prefill);
+    a.f("fence", fence);
   }
 };
 enum Law { L_MODEL, L_HSPLIT, L_ESPLIT, L_OFFSET, L_TRIANGLE, L_COMPOSITE, L_ADDTRAPS, L_N };
@@ -137,6 +139,7 @@ static TCase gen_case() {
   c.law = pickw({8, 3, 3, 3, 3, 4, 2});
   c.seed = seed64();
   c.prefill = pickw({5, 3, 1});  // zeros, random, full
+  c.fence = pickw({3, 4, 2});
   int nt = c.law == L_MODEL ? (int)R(1, 3) : 1;
   bool spanning = coin(80);
   for (int i = 0; i < nt; i++) c.traps.push_back(gen_trap(c.w, c.h, g, spanning));
@@ -208,6 +211,7 @@ static Canvas make_canvas(const TCase &c, int w, int h) {
   b.pad = c.pad;
   b.fill = c.prefill == 0 ? FILL_ZERO : c.prefill == 1 ? FILL_RANDOM : FILL_ONES;
   b.seed = c.seed;
+  b.fence = c.fence;
   Canvas cv;
   cv.im = make_image(b);
   cv.depth = c.fmt == 0 ? 1 : c.fmt == 1 ? 4 : 8;
